@@ -19,6 +19,12 @@ def _units():
             if t == "long double":
                 defs.append("-DC13_NO_NEXTAFTER=1")
             us.append(Unit(f"C13_fp_{tag}_g{g}", "harness/C13_fp.cpp", defs=defs, flavours=_FL3, shards=_SH))
+    # thorough tier only: the one-argument cmath groups over a denser boundary table (every exponent k in -12..127 with its
+    # 1ulp / 0.5 / 1.0 neighbours, n + {0, .25, .5-ulp, .5, .5+ulp, .75} for n = 1..100 and 20 larger n; ~3500-5000 points per function)
+    for tag, t in _TYPES:
+        for g in range(4):
+            us.append(Unit(f"C13_fpbig_{tag}_g{g}", "harness/C13_fp.cpp", defs=[f"-DC13_T={t}", f"-DC13_GRP={g}", "-DC13_BIG=1"],
+                           flavours={"quick": [], "thorough": ["O0-cc", "plain-cc"]}, shards=_SH))
     # bit / saturating / integer numeric utilities: 8-bit exhaustive (quick + thorough), 16/32/64-bit boundary tables
     for w in (8, 64, 16, 32):
         for g in range(5):
@@ -67,7 +73,7 @@ P = dict(
                      "length <= 3 over a 3-letter alphabet; for wider integers, floating point, chrono and the kernels the table is the "
                      "stated boundary scope, NOT all values of the type"),
     units=_units(),
-    floor={"quick": 900000, "thorough": 1400000},
+    floor={"quick": 900000, "thorough": 1800000},
     assumptions=["gcc 12 constant evaluation and code generation are faithful to the C++ abstract machine",
                  "default floating-point environment (round-to-nearest-even); -ffp-contract=off, no -ffast-math",
                  "glibc libm is only used to label argument classes (fma product exact/inexact) and to decide whether the exact result "
